@@ -224,6 +224,7 @@ SPECS["C09"] = dict(
         H("core2_h", "hv_quorum_future_nonleader", stubbing=True, timeout=1200, mem_gb=20, symbolic="node last_voted/high_qc; votes of future round 9 at a non-leader in round 5", asserts="round jumps to 10 on the assembled QC; no proposal request"),
         H("core2_h", "htc_valid", stubbing=True, timeout=900, mem_gb=16, symbolic="TC round, node state", asserts="exactly one Make(round+1, tc) iff this node leads round+1"),
         H("core2_h", "hv_single", stubbing=True, timeout=900, mem_gb=16, symbolic="vote", asserts="no proposal request without entering a new round"),
+        H("core2_h", "hp_wrong_leader_payload_missing", stubbing=True, timeout=1200, mem_gb=20, symbolic="correctly signed, certified proposal by a member that does not lead the round, whose batch is not stored; node state", asserts="rejected as a wrong-leader proposal BEFORE it can be parked for its payload (a parked block re-enters through the loop-back path, which never checks the leader)"),
         H("leader_h", "c09_leader_n3", profile="L8", tier="thorough", symbolic="3 keys", asserts="as n4"),
         H("leader_h", "c09_leader_n5", profile="L8", tier="thorough", symbolic="5 keys", asserts="as n4", timeout=1800),
     ],
